@@ -985,7 +985,7 @@ pub fn alphabet(layer: &str) -> Vec<Step> {
         // connected socket: send / recv without addresses, mixed with the addressed flavours
         "connected" => {
             let mut v = Vec::new();
-            for size in [0usize, 1, 3, 6] {
+            for size in [0usize, 3] {
                 for k in [SKind::Send, SKind::Zc] {
                     v.push(sd(k, size, 0, 0));
                 }
